@@ -221,7 +221,7 @@ theorem evCombine_passes (env : Env) (kw : Kw) (a b c : List S) (sc : Bool) (v :
       cases v.isNull <;> simp [passesL, Ev.passes]
     · simp only [hs, Bool.false_eq_true, if_false, passesL_append]
       have e2 : passesL (if c.isEmpty = true then [] else
-          [Ev.comp CompKind.oneOf (here "oneOf" v [Frag.lit "value doesn't match exactly one schema from \"oneOf\""]) oneSubs]) =
+          [Ev.comp CompKind.oneOf (here "oneOf" v (oneOfReason oneSubs)) oneSubs]) =
           (c.isEmpty || passCount oneSubs == 1) := by
         cases c.isEmpty <;> simp [passesL, Ev.passes, compOK]
       have e3 : passesL (if b.isEmpty = true then [] else
@@ -248,7 +248,7 @@ theorem evCombine_passes (env : Env) (kw : Kw) (a b c : List S) (sc : Bool) (v :
 
 theorem notEvs_passes (env : Env) (n : Option S) (v : J) :
     (match n with | none => True | some s => passesL (events env s v) = visit env s v) →
-    passesL (match n with | none => [] | some s => [Ev.comp CompKind.not (here "not" v []) [events env s v]]) =
+    passesL (match n with | none => [] | some s => [Ev.comp CompKind.not (here "not" v [.lit "Doesn't match schema \"not\""]) [events env s v]]) =
       (match n with | none => true | some s => !visit env s v) := by
   intro ihn
   cases n with
@@ -645,7 +645,7 @@ theorem wfjp_mem {kvs : List (String × J)} (h : WFJP kvs) : ∀ kx ∈ kvs, WFJ
     · exact ih h.2 kx hkx
 
 theorem notEvs_located (env : Env) (n : Option S) (v : J) :
-    locatedL v (match n with | none => [] | some s => [Ev.comp CompKind.not (here "not" v []) [events env s v]]) := by
+    locatedL v (match n with | none => [] | some s => [Ev.comp CompKind.not (here "not" v [.lit "Doesn't match schema \"not\""]) [events env s v]]) := by
   cases n <;> simp [locatedL, Ev.located, loc_here]
 
 theorem childEvs_located (env : Env) (kw : Kw) (i : Option S) (p : List (String × S)) (ad : Option S) (v : J) :
